@@ -222,7 +222,11 @@ var c09Safety = []func(*mon.View, mon.Stats) []mon.Violation{mon.CheckC03, mon.C
 // given fault, then the event-driven recovery loop to quiescence.
 func c09Execute(w *world.World, seed int64, e c09Entry, f1, f2 *simapi.Fault) *c09Run {
 	out := &c09Run{}
-	w.Reset()
+	if f1 == nil {
+		w.Reset() // fault-free twin of a new corpus entry: fresh controller object
+	} else {
+		w.ResetLight()
+	}
 	r := world.NewRunner(w, seed, world.DefaultCfg())
 	scratch := mon.Stats{}
 	target := e.Build(r)
